@@ -130,8 +130,8 @@ prop('C02', COMMON +
      'every temp-name counter is synchronised back into the heap on every path before the next one is created. GUARD-TABLE: '
      'the loop optimiser\'s operator tables (guard extraction, negation, rebuild) are evaluated from MIR for every input and '
      'compared with integer order logic. BRANCH-PAIR-EMPTY: an emptiness test of one branch list of an IfElse comes with a test of the sibling list. INLINE-REWRITES-ALL: every expression operand of a statement rebuilt by the inliner\'s renaming function comes out of the renaming. '
-     'PEEK-THEN-VISIT: where a function of the walker family inspects the variant of a child node it reaches through a slot of its parent, the variants it does not name are still handed to the family\'s visitor for that node type on every path (they are not treated as leaves). PEEK-THEN-VISIT: where a function of the walker family inspects the variant of a child node it reaches through a slot of its parent, the variants it does not name are still handed to the family\'s visitor for that node type on every path (they are not treated as leaves). Does not decide loop closed forms, LICM legality, inlining capture-avoidance or escape analysis.',
-     [const_arith.run, optimizer.run_dce_keep, optimizer.run_fold_table, optimizer.run_swap_table, optimizer.run_branch_pair, optimizer.run_inline_rewrites_all, guard_table.run, traversal.run_tuple_components, scope.run_bracket, scope.run_counter_sync,
+     'PEEK-THEN-VISIT: where a function of the walker family inspects the variant of a child node it reaches through a slot of its parent, the variants it does not name are still handed to the family\'s visitor for that node type on every path (they are not treated as leaves). PEEK-THEN-VISIT: where a function of the walker family inspects the variant of a child node it reaches through a slot of its parent, the variants it does not name are still handed to the family\'s visitor for that node type on every path (they are not treated as leaves). LICM-KEPT-IS-VARIANT: for every statement variant that defines a name, every path of loop-invariant code motion from its match arm back to the loop head hoists the statement or records the name as loop-variant (only an empty optional / repeated defining field excuses a path). Does not decide loop closed forms, LICM legality, inlining capture-avoidance or escape analysis.',
+     [const_arith.run, optimizer.run_dce_keep, optimizer.run_fold_table, optimizer.run_swap_table, optimizer.run_branch_pair, optimizer.run_inline_rewrites_all, optimizer.run_licm_kept_is_variant, guard_table.run, traversal.run_tuple_components, scope.run_bracket, scope.run_counter_sync,
       TI.make(['T-dce', 'T-conditional_constant_propagation', 'T-inlining', 'T-local_value_numbering',
                'T-scalar_replacement', 'T-unused_name_elimination', 'T-loop_induction_variable_elimination'])])
 
@@ -219,9 +219,9 @@ prop('C12', COMMON +
      'into vectors/strings, aggregates and function results to the arguments of the 87 ErrorSet::report_* / '
      'StackableError::add_* call sites; sorting, min/max/count/any/all and collecting into a hash or B-tree collection '
      'remove the taint. COUNTER-SYNC (shared with C02): every temp-name counter handed to the parallel optimiser is '
-     'synchronised back on every path. INTERN-ORDER: before the diagnostics of a compilation are rendered no string is interned in hash-iteration order (long identifiers are ordered by interning index). PAR-ISOLATION (clause "whatever the number of worker threads"): in the code reachable from the closures handed to the rayon adapters no branch depends on a value read from state shared between workers (atomics, locks, channels); the shared temporary-name counter only hands out names. SORT-KEY-LOSSY: a stable keyed sort over hash-collection entries does not compute its key from the unique part of the entry through a lossy function (case folding, length, prefix), which would leave ties in hash order. Does not decide that programs emitted under different module enumeration orders or '
+     'synchronised back on every path. INTERN-ORDER: before the diagnostics of a compilation are rendered no string is interned in hash-iteration order (long identifiers are ordered by interning index). PAR-ISOLATION (clause "whatever the number of worker threads"): in the code reachable from the closures handed to the rayon adapters no branch depends on a value read from state shared between workers (atomics, locks, channels); the shared temporary-name counter only hands out names. SORT-KEY-LOSSY: a stable keyed sort over hash-collection entries does not compute its key from the unique part of the entry through a lossy function (case folding, length, prefix), which would leave ties in hash order. ERRSET-SINK merge clause: the method that folds one error set into another is a plain union (no branch except on the end of the elements), so the order in which the parallel checker delivers the per-module sets cannot change the result. Does not decide that programs emitted under different module enumeration orders or '
      'thread counts behave the same (synthetic numbering follows hash order by design).',
-     [order_taint.run, order_taint.run_intern_order, scope.run_counter_sync, par_isolation.run, order_taint.run_sort_key_lossy_compiler],
+     [order_taint.run, order_taint.run_intern_order, scope.run_counter_sync, par_isolation.run, order_taint.run_sort_key_lossy_compiler, gate.run_errset],
      ['ErrorSet keeps its errors in an ordered set (BTreeSet) and renders them in that order'])
 
 prop('C14', COMMON +
